@@ -6,6 +6,8 @@
 use super::common::*;
 use super::tables::*;
 use crate::ast::{self, Fmt};
+#[allow(unused_imports)]
+use crate::exec::Deco;
 use crate::exec::*;
 use crate::gen::Tokens;
 use crate::rng::Rng;
@@ -16,7 +18,7 @@ use serde_json::json;
 pub static MONITOR_C05: Monitor = Monitor {
     id: "C05",
     title: "Table borders form a consistent box drawing",
-    rule: "Regular tables (1..5 rows x 1..6 columns, colspans tiling the grid, cells empty / 1-2 characters / multi-word / multi-line via <br> / wide characters, nested regular tables, thead/tbody), plain decorator with borders, widths 1..=100; bounded-exhaustive part: every table up to 2x2 (quick) / 2x3 (thorough) over 3 content classes and all colspan tilings at every width 1..=30. The output is parsed into a character-cell grid (wide characters occupy two cells). Oracle, side by side (TableLayout hook says which layout; fallback: '/' rules): all lines equally wide and <= w, first and last line are rules, one rule more than rows with content, bars at identical x on every line of a row band, and at EVERY rule glyph of the output (nested tables included) glyph == f(bar directly above, bar directly below), every bar continued by a bar or joining glyph above and below. Stacked: every rule exactly as wide as the width given to the table, '─' rules at both ends and between rows, '/' rules between the cells of a row, no junction glyphs. Distinct/non-trivial = distinct table outputs with at least one junction glyph or a stacked rule skeleton of at least 3 rules.",
+    rule: "Regular tables (1..5 rows x 1..6 columns, colspans tiling the grid, cells empty / 1-2 characters / multi-word / multi-line via <br> / wide characters, nested regular tables, thead/tbody), borders on, widths 1..=100; half of the random tables under the plain decorator at top level, the other half under a drawn configuration (plain / rich / trivial decorator x pad_block_width, max_wrap_width(2..24), min_wrap_width(1..8)), with <p> paragraphs inside cells and, for a third of them, inside <blockquote> / <ul><li> / both (the prefix column is stripped and the table judged at the narrower width); bounded-exhaustive part: every table up to 2x2 (quick) / 2x3 (thorough) over 3 content classes and all colspan tilings at every width 1..=30, under plain and one drawn configuration. The output is parsed into a character-cell grid (wide characters occupy two cells). Oracle, side by side (TableLayout hook says which layout; fallback: '/' rules): all lines equally wide and <= w, first and last line are rules, one rule more than rows with content, bars at identical x on every line of a row band, and at EVERY rule glyph of the output (nested tables included) glyph == f(bar directly above, bar directly below), every bar continued by a bar or joining glyph above and below. Stacked: every rule exactly as wide as the width given to the table, '─' rules at both ends and between rows, '/' rules between the cells of a row, no junction glyphs. Distinct/non-trivial = distinct table outputs with at least one junction glyph or a stacked rule skeleton of at least 3 rules.",
     assumptions: &[
         "the structural (band/bar) checks apply to tables without nested tables in which every column gets a non-zero size estimate; other tables get the local glyph/bar rules and equal line widths only",
     ],
@@ -30,7 +32,7 @@ pub static MONITOR_C05: Monitor = Monitor {
 pub static MONITOR_C06: Monitor = Monitor {
     id: "C06",
     title: "Table cells stay in their columns, in order; columns with text get space",
-    rule: "Same table workload as C05 with unique tokens per cell (plus deliberately tiny tokens, empty cells and colspans over otherwise empty columns). Oracle on the parsed grid of side-by-side tables: column boundaries recovered from the bars coincide in every row (respecting colspans) and with the TableLayout hook's allocated widths; sum of widths + separators <= width given to the table and == line width; no column holding text has width 0; for every cell the token characters found inside its rectangle (row band x spanned columns), read line by line, equal the cell's text - which gives containment, left-to-right / top-to-bottom order and presence of every non-empty cell at once. Stacked tables: token characters in source order. Distinct/non-trivial = distinct outputs of tables with at least two columns and two non-empty cells.",
+    rule: "Same table workload as C05 with unique tokens per cell (plus deliberately tiny tokens, empty cells and colspans over otherwise empty columns). Oracle on the parsed grid of side-by-side tables: column boundaries recovered from the bars coincide in every row (respecting colspans) and with the TableLayout hook's allocated widths; sum of widths + separators <= width given to the table and == line width; no column holding text has width 0; for every cell the token characters found inside its rectangle (row band x spanned columns), read line by line, equal the cell's text - which gives containment, left-to-right / top-to-bottom order and presence of every non-empty cell at once. When the drawing itself is inconsistent (a C05 matter) the rectangles are taken from the hooked allocation instead of the bars, so misplaced text is still reported here. Stacked tables: token characters in source order. Distinct/non-trivial = distinct outputs of tables with at least two columns and two non-empty cells.",
     assumptions: &[
         "cell rectangles are checked for tables without nested tables in which every column gets a non-zero size estimate; a spanning cell narrower than its colspan over otherwise empty columns is the known finding shared with C03",
     ],
@@ -139,20 +141,123 @@ fn run_tables(seed: u64, idx: u64, tier: Tier, out: &mut CaseOut, c05: bool) {
     if table.rows.iter().flatten().any(|c| c.span > 1) {
         out.inc("tables_with_colspan");
     }
-    let doc = vec![table.to_node()];
+    // Configuration and context are drawn from a separate stream so that the
+    // tables themselves do not depend on them.
+    let mut crng = Rng::for_case(seed, "C05cfg", idx);
+    let mut table = table;
+    let variant = |r: &mut Rng| -> Cfg {
+        let mut c = match r.below(8) {
+            0 => Cfg::rich(),
+            1 => Cfg::trivial(),
+            _ => Cfg::plain(),
+        };
+        match r.below(6) {
+            0 | 1 => c.pad = true,
+            2 => c.max_wrap = Some(r.range(2, 24)),
+            3 => {
+                c.pad = true;
+                c.max_wrap = Some(r.range(2, 24));
+            }
+            4 => c.min_wrap = Some(r.range(1, 8)),
+            _ => {}
+        }
+        c
+    };
+    let (cfgs, ctx): (Vec<Cfg>, usize) = if idx < nex {
+        (vec![Cfg::plain(), variant(&mut crng)], 0)
+    } else if crng.chance(1, 2) {
+        (vec![Cfg::plain()], 0)
+    } else {
+        // paragraphs inside cells (blank lines inside a row band)
+        if crng.chance(1, 2) {
+            for c in table.rows.iter_mut().flatten() {
+                if c.words.len() > 1 && c.nested.is_none() && crng.chance(1, 2) {
+                    c.paras = true;
+                }
+            }
+        }
+        let ctx = if crng.chance(1, 3) { crng.range(1, 3) } else { 0 };
+        (vec![variant(&mut crng)], ctx)
+    };
+    // context: 0 = top level, 1 = inside <blockquote>, 2 = inside <ul><li>, 3 = both
+    let tnode = table.to_node();
+    let (doc, pw): (Vec<ast::Node>, usize) = match ctx {
+        1 => (vec![ast::El::with("blockquote", vec![tnode]).node()], 2),
+        2 => (vec![ast::El::with("ul", vec![ast::El::with("li", vec![tnode]).node()]).node()], 2),
+        3 => (
+            vec![ast::El::with(
+                "blockquote",
+                vec![ast::El::with("ul", vec![ast::El::with("li", vec![tnode]).node()]).node()],
+            )
+            .node()],
+            4,
+        ),
+        _ => (vec![tnode], 0),
+    };
+    if ctx > 0 {
+        out.inc("tables_in_prefixed_block");
+    }
     let input = ast::serialize(&doc, &mut Fmt::canonical());
-    let cfg = Cfg::plain();
     let sized = table.all_columns_sized();
-    for &w in &widths {
-        let t = render_string_traced(&cfg, &input, w);
+    for (cfg, &w) in cfgs.iter().flat_map(|c| widths.iter().map(move |w| (c, w))) {
+        if cfg.pad {
+            out.inc("cfg:pad");
+        }
+        if cfg.max_wrap.is_some() {
+            out.inc("cfg:max_wrap");
+        }
+        if cfg.min_wrap.is_some() {
+            out.inc("cfg:min_wrap");
+        }
+        if !matches!(cfg.deco, Deco::Plain) {
+            out.inc("cfg:other_decorator");
+        }
+        let t = render_string_traced(cfg, &input, w);
         out.evals += 1;
-        let s = match &t.out {
+        let s_full = match &t.out {
             Outcome::Ok(s) => s,
             _ => {
                 out.inc("not_ok");
                 continue;
             }
         };
+        // strip the prefix column of the enclosing block(s); the table then has w - pw
+        let stripped: String;
+        let s: &String = if pw == 0 {
+            s_full
+        } else {
+            let mut acc = String::new();
+            let mut ok = true;
+            for (li, l) in s_full.lines().enumerate() {
+                let exp: &str = match (ctx, li) {
+                    (1, _) => "> ",
+                    (2, 0) => "* ",
+                    (2, _) => "  ",
+                    (3, 0) => "> * ",
+                    (3, _) => ">   ",
+                    _ => "",
+                };
+                match l.strip_prefix(exp) {
+                    Some(r) => {
+                        acc.push_str(r);
+                        acc.push('\n');
+                    }
+                    None => {
+                        ok = false;
+                        break;
+                    }
+                }
+            }
+            if !ok {
+                // prefixes are C07's subject; not judged here
+                out.inc("prefix_not_parsed");
+                continue;
+            }
+            stripped = acc;
+            &stripped
+        };
+        let w_full = w;
+        let w = w.saturating_sub(pw);
         let grid = to_grid(s);
         let lay = outer_layout(&t.events, &grid, w);
         // The structural oracle needs every effective column to be present.
@@ -176,7 +281,7 @@ fn run_tables(seed: u64, idx: u64, tier: Tier, out: &mut CaseOut, c05: bool) {
         };
         out.inc(if lay.vertical { "layout:stacked" } else { "layout:side_by_side" });
         if out.sample.is_none() && grid.len() > 2 {
-            out.sample = Some(sample(&input, w, &cfg, s));
+            out.sample = Some(sample(&input, w_full, cfg, s_full));
         }
         let mut findings: Vec<Finding> = Vec::new();
         if let Some(j) = zero_with_own_text {
@@ -197,17 +302,31 @@ fn run_tables(seed: u64, idx: u64, tier: Tier, out: &mut CaseOut, c05: bool) {
             out.count("glyph:tee_down", st.tee_down);
             out.count("glyph:tee_up", st.tee_up);
         }
-        if lay.vertical {
+        if lay.vertical && lay.from_hook && lay.avail == 0 {
+            // a table that is given no width at all (prefix as wide as the line) draws nothing
+            out.inc("table_given_zero_width");
+        } else if lay.vertical {
             if !table.has_nested() {
                 out.inc("structure_checked");
-                if let Some(f) = check_stacked(&table, &grid, &lay, &cfg) {
+                if let Some(f) = check_stacked(&table, &grid, &lay, cfg) {
                     findings.push(f);
                 }
             }
         } else if structured {
             out.inc("structure_checked");
             match check_side_by_side(&table, &grid, &lay, w) {
-                Some(f) => findings.push(f),
+                Some(f) => {
+                    // C06 does not depend on the drawing being intact: when the bars are
+                    // inconsistent the cell rectangles are taken from the hooked allocation
+                    if !c05 && C05_SIGS.contains(&f.sig.split(':').next().unwrap_or("")) {
+                        let mut n = 0;
+                        if let Some(f2) = check_cells_by_allocation(&table, &grid, &lay, &mut n) {
+                            findings.push(f2);
+                        }
+                        out.count("cells_located_by_allocation", n);
+                    }
+                    findings.push(f)
+                }
                 None => {
                     let mut n = 0;
                     if let Some(f) = check_cells(&table, &grid, &mut n) {
@@ -339,7 +458,7 @@ fn run_tables(seed: u64, idx: u64, tier: Tier, out: &mut CaseOut, c05: bool) {
                 out.violate(
                     f.sig.clone(),
                     f.what.clone(),
-                    witness(&input, w, &cfg, json!({"output": s, "layout": if lay.vertical {"stacked"} else {"side-by-side"}, "col_widths": lay.col_widths})),
+                    witness(&input, w_full, cfg, json!({"output": s_full, "layout": if lay.vertical {"stacked"} else {"side-by-side"}, "col_widths": lay.col_widths})),
                 );
                 return;
             }
